@@ -129,6 +129,8 @@ type interpreter struct {
 	schedQ       int
 	extCache     map[*ssa.Function]externalFn
 	choices      map[string]string
+	schedCache   map[string]bool
+	schedHits    int
 	reflectTable map[string]externalFn
 }
 
